@@ -51,6 +51,11 @@ CHECKS.update({
    text="All schedules with <=2 (quick) / <=3 (thorough, all 16 option combinations) faults over the first 8 packets per direction for client/server and INIT-collision starts are enumerated; both sides must establish, agree on interleaving, forward-TSN variant and zero-checksum direction, exchange data, survive re-injection of every handshake packet and a 5-minute idle period; silent peer and closed transport make the connect calls return an error in bounded virtual time.",
    note="exhaustive only for the stated <=k sub-space; beyond it sampled. A hang on library locks (watchdog) counts as a violation.", ref="6/C04"),
 })
+CHECKS.update({
+ "C18": dict(level="exploration", technique="property-based testing (rapid): generated API programs (valid, empty, oversize, closed-stream, post-shutdown and deadline-limited writes; adequate, short-buffer and deadline-limited reads placed around the known arrival instant) against a queue model of accepted messages plus a wire byte ledger",
+   text="Generated call programs on ordered/unordered, DATA/I-DATA, blocking/non-blocking streams: documented error values, no bytes on the wire beyond accepted writes, every accepted message read exactly once (in order on ordered streams), short-buffer reads keep the message, read deadlines fire at the exact virtual instant without losing or duplicating a message, blocking writes return only after earlier bytes were transmitted.",
+   note="One writer at a time per stream (the blocking gate serialises writers with a plain mutex). Arrival instant is known because the simulation is deterministic.", ref="6/C18"),
+})
 NOT_YET = {}
 props = [json.loads(l) for l in open(os.path.join(V, "properties.jsonl"))]
 checks = []
